@@ -12,14 +12,14 @@ import (
 )
 
 // Sharing mechanisms.
-var ConcShares = []string{"goarg", "closure", "global", "chan", "field", "iface", "map", "slice", "publish", "funcval", "none"}
+var ConcShares = []string{"goarg", "closure", "global", "chan", "field", "iface", "map", "slice", "publish", "funcval", "none", "structarg", "spawn", "spawniface", "ring"}
 
 // Access forms (the instruction under test).
 var ConcAccesses = []string{"store", "load", "mapupdate", "lookup", "delete", "maplen", "elemstore", "elemload",
-	"append", "copy", "rangemap", "structstore", "structload", "chain", "clear", "commaok", "tostring", "cap", "slicelen"}
+	"append", "copy", "rangemap", "structstore", "structload", "chain", "clear", "commaok", "tostring", "cap", "slicelen", "namedptrload"}
 
 // Helper indirections.
-var ConcVias = []string{"direct", "callee", "closure", "method", "iface", "deferred", "nested"}
+var ConcVias = []string{"direct", "callee", "closure", "method", "iface", "deferred", "nested", "closurevar", "closurefield", "ifaceparam", "twoholders", "gorunhelper"}
 
 // Scenario is one generated case.
 type Scenario struct {
@@ -27,7 +27,7 @@ type Scenario struct {
 	Share  string
 	Access string
 	Via    string
-	Root   string // "call": main calls the scenario function; "go": main launches it as a goroutine and waits
+	Root   string // "call": main calls the scenario function; "go": main launches it as a goroutine and waits; "loop": like call, but access and sharing are in a loop, the sharing after the access
 	Line   int // line of the access under test (filled by RenderConc)
 	WLine  int // line of the goroutine's conflicting write
 }
@@ -53,6 +53,16 @@ type T struct {
 }
 
 type H struct{ t *T }
+
+type S struct{ t *T }
+
+type PI *int
+
+type FH struct{ f func() }
+
+type Runner interface{ Run() }
+
+type AP interface{ DoP(p *T) }
 
 type I interface{ Get() *T }
 
@@ -115,6 +125,8 @@ func accessStmt(a string, p, q string) (pre []string, access string, write strin
 		return []string{"ps := " + p + ".s"}, "v = cap(ps)", q + ".s[0] = 2"
 	case "slicelen":
 		return []string{"ps := " + p + ".s"}, "v = len(ps)", q + ".s[0] = 2"
+	case "namedptrload":
+		return []string{"var q0 PI = PI(&" + p + ".x)"}, "v = *q0", q + ".x = 2"
 	case "chain":
 		return []string{"pn := " + p + ".next"}, "pn.x = 1", q + ".next.x = 2"
 	}
@@ -159,11 +171,23 @@ func RenderConc(scs []*Scenario) string {
 			params, obtain = "f func() *T, done chan bool", "q := f()"
 		case "none":
 			params, obtain = "done chan bool", "q := newT()"
+		case "structarg":
+			params, obtain = "s S, done chan bool", "q := s.t"
+		case "ring":
+			params, obtain = "q0 *T, done chan bool", "q := q0.next"
+		case "spawn":
+			w("func spawn%d(f func()) {\n\tgo f()\n}\n", n)
+		case "spawniface":
+			w("type R%d struct {\n\tt    *T\n\tdone chan bool\n}\nfunc spawnI%d(r Runner) {\n\tgo r.Run()\n}\n", n, n)
 		}
 		if sc.Share == "publish" {
 			w("func publish%d(p *T) {\n\tg%d = p\n}\n", n, n)
 		}
-		if sc.Share != "closure" {
+		if sc.Share == "spawniface" {
+			w("func (r *R%d) Run() {\n\tq := r.t\n", n)
+			sc.WLine = line
+			w("\t%s\n\tr.done <- true\n}\n", wr)
+		} else if sc.Share != "closure" && sc.Share != "spawn" {
 			w("func writer%d(%s) {\n", n, params)
 			if obtain != "" {
 				w("\t%s\n", obtain)
@@ -198,57 +222,113 @@ func RenderConc(scs []*Scenario) string {
 			w("type D%d struct{ t *T }\nfunc (r *D%d) Do(k int) {\n\tp := r.t\n", n, n)
 			body("\t")
 			w("}\n")
+		case "ifaceparam":
+			w("type DP%d struct{}\nfunc (d *DP%d) DoP(p *T) {\n", n, n)
+			body("\t")
+			w("}\n")
+		case "twoholders":
+			w("func acc2%d(h1, h2 *H) {\n\tp := h1.t\n\t_ = h2\n", n)
+			body("\t")
+			w("}\n")
+		case "gorunhelper":
+			// the access runs in a second goroutine, inside a closure that reaches it as a parameter
+			w("func run%d(f func(), fin2 chan bool) {\n\tf()\n\tfin2 <- true\n}\n", n)
 		}
 		if sc.Root == "go" {
 			w("func scen%d(fin chan bool) {\n\tdefer func() { fin <- true }()\n\tp := newT()\n\tdone := make(chan bool)\n", n)
 		} else {
 			w("func scen%d() {\n\tp := newT()\n\tdone := make(chan bool)\n", n)
 		}
-		switch sc.Share {
-		case "goarg":
-			w("\tgo writer%d(p, done)\n", n)
-		case "closure":
-			w("\tgo func() {\n")
-			sc.WLine = line
-			w("\t\t%s\n\t\tdone <- true\n\t}()\n", strings.ReplaceAll(wr, "q", "p"))
-		case "global":
-			w("\tg%d = p\n\tgo writer%d(done)\n", n, n)
-		case "publish":
-			w("\tpublish%d(p)\n\tgo writer%d(done)\n", n, n)
-		case "chan":
-			w("\tch := make(chan *T, 1)\n\tch <- p\n\tgo writer%d(ch, done)\n", n)
-		case "field":
-			w("\th := &H{}\n\th.t = p\n\tgo writer%d(h, done)\n", n)
-		case "iface":
-			w("\tvar i I = p\n\tgo writer%d(i, done)\n", n)
-		case "map":
-			w("\tmm := map[int]*T{0: p}\n\tgo writer%d(mm, done)\n", n)
-		case "slice":
-			w("\tss := []*T{p}\n\tgo writer%d(ss, done)\n", n)
-		case "funcval":
-			w("\tf := func() *T { return p }\n\tgo writer%d(f, done)\n", n)
-		case "none":
-			w("\tgo writer%d(done)\n", n)
+		ind := "\t"
+		share := func() {
+			switch sc.Share {
+			case "goarg":
+				w("%sgo writer%d(p, done)\n", ind, n)
+			case "closure":
+				w("%sgo func() {\n", ind)
+				sc.WLine = line
+				w("%s\t%s\n%s\tdone <- true\n%s}()\n", ind, strings.ReplaceAll(wr, "q", "p"), ind, ind)
+			case "global":
+				w("%sg%d = p\n%sgo writer%d(done)\n", ind, n, ind, n)
+			case "publish":
+				w("%spublish%d(p)\n%sgo writer%d(done)\n", ind, n, ind, n)
+			case "chan":
+				w("%sch := make(chan *T, 1)\n%sch <- p\n%sgo writer%d(ch, done)\n", ind, ind, ind, n)
+			case "field":
+				w("%sh := &H{}\n%sh.t = p\n%sgo writer%d(h, done)\n", ind, ind, ind, n)
+			case "iface":
+				w("%svar i I = p\n%sgo writer%d(i, done)\n", ind, ind, n)
+			case "map":
+				w("%smm := map[int]*T{0: p}\n%sgo writer%d(mm, done)\n", ind, ind, n)
+			case "slice":
+				w("%sss := []*T{p}\n%sgo writer%d(ss, done)\n", ind, ind, n)
+			case "funcval":
+				w("%sf := func() *T { return p }\n%sgo writer%d(f, done)\n", ind, ind, n)
+			case "none":
+				w("%sgo writer%d(done)\n", ind, n)
+			case "structarg":
+				w("%sgo writer%d(S{p}, done)\n", ind, n)
+			case "ring":
+				w("%sp.next = p\n%sgo writer%d(p, done)\n", ind, ind, n)
+			case "spawn":
+				w("%sspawn%d(func() {\n", ind, n)
+				sc.WLine = line
+				w("%s\t%s\n%s\tdone <- true\n%s})\n", ind, strings.ReplaceAll(wr, "q", "p"), ind, ind)
+			case "spawniface":
+				w("%sspawnI%d(&R%d{p, done})\n", ind, n, n)
+			}
 		}
-		switch sc.Via {
-		case "direct":
-			body("\t")
-		case "callee":
-			w("\tacc%d(p)\n", n)
-		case "nested":
-			w("\touter%d(p)\n", n)
-		case "closure":
-			w("\tfunc() {\n")
-			body("\t\t")
-			w("\t}()\n")
-		case "deferred":
-			w("\tfunc() {\n\t\tdefer func() {\n")
-			body("\t\t\t")
-			w("\t\t}()\n\t}()\n")
-		case "method":
-			w("\tM%d{p}.do()\n", n)
-		case "iface":
-			w("\tvar a A = &D%d{p}\n\ta.Do(0)\n", n)
+		access := func() {
+			switch sc.Via {
+			case "direct":
+				body(ind)
+			case "callee":
+				w("%sacc%d(p)\n", ind, n)
+			case "nested":
+				w("%souter%d(p)\n", ind, n)
+			case "closure":
+				w("%sfunc() {\n", ind)
+				body(ind + "\t")
+				w("%s}()\n", ind)
+			case "closurevar":
+				w("%scf := func() {\n", ind)
+				body(ind + "\t")
+				w("%s}\n%scf()\n", ind, ind)
+			case "closurefield":
+				w("%sfh := &FH{}\n%sfh.f = func() {\n", ind, ind)
+				body(ind + "\t")
+				w("%s}\n%scg := fh.f\n%scg()\n", ind, ind, ind)
+			case "deferred":
+				w("%sfunc() {\n%s\tdefer func() {\n", ind, ind)
+				body(ind + "\t\t")
+				w("%s\t}()\n%s}()\n", ind, ind)
+			case "method":
+				w("%sM%d{p}.do()\n", ind, n)
+			case "iface":
+				w("%svar a A = &D%d{p}\n%sa.Do(0)\n", ind, n, ind)
+			case "ifaceparam":
+				w("%svar ap AP = &DP%d{}\n%sap.DoP(p)\n", ind, n, ind)
+			case "twoholders":
+				w("%sh1, h2 := &H{p}, &H{p}\n%sacc2%d(h1, h2)\n", ind, ind, n)
+			case "gorunhelper":
+				w("%sfin2 := make(chan bool)\n%sgo run%d(func() {\n", ind, ind, n)
+				body(ind + "\t")
+				w("%s}, fin2)\n%s<-fin2\n", ind, ind)
+			}
+		}
+		if sc.Root == "loop" {
+			// the access comes first in the loop body; the object is shared at the end of the first
+			// round, so the access of the second round touches shared memory
+			w("\tfor i := 0; i < 2; i++ {\n")
+			ind = "\t\t"
+			access()
+			w("\t\tif i == 0 {\n")
+			ind = "\t\t\t"
+			share()
+			w("\t\t}\n\t}\n")
+		} else {
+			share()
+			access()
 		}
 		w("\t<-done\n}\n")
 	}
@@ -269,7 +349,7 @@ func RandScenarios(r *rand.Rand, n int, avoid func(*Scenario) bool) []*Scenario 
 	var out []*Scenario
 	for len(out) < n {
 		sc := &Scenario{ID: len(out), Share: ConcShares[r.Intn(len(ConcShares))],
-			Access: ConcAccesses[r.Intn(len(ConcAccesses))], Via: ConcVias[r.Intn(len(ConcVias))], Root: []string{"call", "go"}[r.Intn(2)]}
+			Access: ConcAccesses[r.Intn(len(ConcAccesses))], Via: ConcVias[r.Intn(len(ConcVias))], Root: []string{"call", "go", "go", "loop"}[r.Intn(4)]}
 		if avoid != nil && avoid(sc) {
 			continue
 		}
